@@ -493,6 +493,46 @@ def r14_record_completeness(chk, rule='C03.R14', fields=None):
                 chk.ob(rule, 'IntermediateCodeGen.%s/%s-own-guard' % (c.name, f), not bad, where(mod, s_.node),
                        'the store of %r depends on %s; it may depend only on the presence of the clause component it '
                        'holds%s' % (f, bad, ' and the text switch' if f in GATED else ''))
+    # sub-records created empty and filled by nested stores: all members present (augmention: name, module, object)
+    c = clauses.get('objectTypeClause')
+    if c is not None and not fields:
+        sub = sorted(s_.key[1] for s_ in c.stores if s_.var == c.record_var and len(s_.key) == 2 and
+                     s_.key[0] == 'augmention')
+        chk.ob(rule, 'IntermediateCodeGen.%s/augmention-members' % c.name, sub == ['module', 'name', 'object'],
+               where(mod, c.fn), 'members stored under augmention: %s' % sub)
+    # the textual-convention handler is not a top-level clause; same two obligations for its four text/status parts
+    ci = model.cls(INTER, 'IntermediateCodeGen')
+    o, tc = ci.find_method('genTypeDeclarationRHS')
+    unp = [st for st in walk_no_nested(tc) if isinstance(st, ast.Assign) and isinstance(st.targets[0], ast.Tuple) and
+           _key_is(st.value, tc.args.args[1].arg) and len(st.targets[0].elts) == 5]
+    chk.ob(rule, 'IntermediateCodeGen.genTypeDeclarationRHS/unpack', len(unp) == 1, where(mod, tc),
+           'display, status, description, reference, syntax = data')
+    if len(unp) == 1:
+        names = [e.id if isinstance(e, ast.Name) else None for e in unp[0].targets[0].elts]
+        stores = ir.record_stores(tc)
+        for key, var in zip(('displayhint', 'status', 'description', 'reference'), names[:4]):
+            if fields and key not in fields:
+                continue
+            ss = [s_ for s_ in stores if s_.key == (key,) and _key_is(s_.value, var)]
+            n += 1
+            chk.ob(rule, 'IntermediateCodeGen.genTypeDeclarationRHS/stores %s' % key, len(ss) == 1, where(mod, tc),
+                   'the %s of a textual convention (local `%s`) is not stored' % (key, var))
+            for s_ in ss:
+                bad = []
+                for test, in_body in s_.guards:
+                    if norm(test) == 'len(%s) == 1' % tc.args.args[1].arg and not in_body:
+                        continue   # the TC branch itself
+                    if not in_body:
+                        bad.append('else-branch of `%s`' % norm(test)[:40])
+                        continue
+                    for cj in ir.conjuncts(test):
+                        if norm(cj) == var:
+                            continue
+                        if norm(cj) == "self.genRules['text']" and key in GATED:
+                            continue
+                        bad.append(norm(cj)[:50])
+                chk.ob(rule, 'IntermediateCodeGen.genTypeDeclarationRHS/%s-own-guard' % key, not bad, where(mod, s_.node),
+                       'the store of %r depends on %s' % (key, bad))
     chk.floor(rule, 60 if not fields else 10, 'components and stores')
 
 
